@@ -49,6 +49,7 @@ struct TabletWorld {
 
 #[derive(Clone, Debug)]
 struct Only {
+    restart: usize,
     lwt: bool,
     ks: String,
     policy: Policy,
@@ -119,6 +120,43 @@ fn client_tablet_view(session: &Session, token: i64) -> BTreeSet<(uuid::Uuid, u3
     state.replica_locator().replicas_for_token(Token::new(token), &ks.strategy, None, &spec).into_iter().map(|(n, s)| (n.host_id, s)).collect()
 }
 
+/// Client side of "pools are full": every READY pool connection the mock has seen has carried a probe, i.e. the
+/// client has put it into its pool (however it filed it).
+async fn confirm_pools(r: &Report, desc: &Desc, layout: &Layout, cluster: &MockCluster, session: &Session, pool: &[ConnInfo]) {
+    for i in 0..layout.nodes.len() {
+        let host = cluster.host_id(i);
+        let want: BTreeSet<u64> = pool.iter().filter(|c| c.node == i).map(|c| c.id).collect();
+        let aims: Vec<Option<u32>> = match layout.nodes[i].shards {
+            Some((nr, _)) => (0..nr as u32).map(Some).collect(),
+            None => vec![None],
+        };
+        let mut seen: BTreeSet<u64> = BTreeSet::new();
+        let t0 = Instant::now();
+        let mut k = 0usize;
+        while !want.is_subset(&seen) {
+            let mut probe = Statement::new(PROBE);
+            let lbp = SingleTargetLoadBalancingPolicy::new(NodeIdentifier::HostId(host), aims[k % aims.len()]);
+            probe.set_execution_profile_handle(Some(ExecutionProfile::builder().load_balancing_policy(lbp).build().into_handle()));
+            k += 1;
+            let from = cluster.log_len();
+            let ok = session.query_unpaged(probe, ()).await.is_ok();
+            let before = seen.len();
+            for e in cluster.log_since(from) {
+                if e.is_stmt(PROBE) && e.node == i {
+                    seen.insert(e.conn);
+                }
+            }
+            r.counters.add("pool_probes", 1);
+            if t0.elapsed() > DEADLINE {
+                machinery(cluster, desc, &format!("probes aimed at node {i} reached connections {seen:?} only, the mock has {want:?} READY"));
+            }
+            if !ok || seen.len() == before {
+                tokio::time::sleep(Duration::from_micros(200)).await; // poll interval of a condition wait
+            }
+        }
+    }
+}
+
 struct Run<'a> {
     r: &'a Report,
     desc: &'a Desc,
@@ -128,11 +166,14 @@ struct Run<'a> {
     pool_has: BTreeSet<(usize, Option<u16>)>,
     serial: i32,
     replaying: bool,
+    /// 0 = before any restart; k = after the k-th "node restarted with other sharding parameters" step
+    restart: usize,
+    restart_note: String,
 }
 
 impl Run<'_> {
     fn case(&self, ks: &str, lwt: bool, policy: &Policy, key: i32, generation: usize) -> Value {
-        json!({"desc": self.desc.to_json(), "only": {"ks": ks, "lwt": lwt, "policy": policy.label(), "key": key, "generation": generation}})
+        json!({"desc": self.desc.to_json(), "only": {"ks": ks, "lwt": lwt, "policy": policy.label(), "key": key, "generation": generation, "restart": self.restart}})
     }
 
     /// One logical request + oracle. Returns the (node, shard) the first EXECUTE arrived on.
@@ -173,7 +214,7 @@ impl Run<'_> {
             r.counters.add("requests_with_more_than_one_execute_frame", 1);
         }
         let (node, shard) = (first.node, first.shard);
-        let here = format!("{} ks={}{} policy={} key={} token={}", self.desc.label(), ks.name, if lwt { " (LWT)" } else { "" }, policy.label(), ck.key, ck.token);
+        let here = format!("{}{} ks={}{} policy={} key={} token={}", self.desc.label(), self.restart_note, ks.name, if lwt { " (LWT)" } else { "" }, policy.label(), ck.key, ck.token);
         if lwt {
             r.counters.add("lwt_requests", 1);
         }
@@ -382,38 +423,7 @@ async fn run_session(r: &Report, desc: &Desc, layout: &Arc<Layout>, cluster: &Mo
     // has carried a probe, i.e. the client has put it into its pool (however it filed it)
     let pool = cluster.wait_conns("every pool has its connections READY", DEADLINE, |cs| pools_full(layout, cs)).await.unwrap_or_else(|e| machinery(&cluster, desc, &e));
     let pool_has: BTreeSet<(usize, Option<u16>)> = pool.iter().map(|c| (c.node, c.shard)).collect();
-    for i in 0..layout.nodes.len() {
-        let host = cluster.host_id(i);
-        let want: BTreeSet<u64> = pool.iter().filter(|c| c.node == i).map(|c| c.id).collect();
-        let aims: Vec<Option<u32>> = match layout.nodes[i].shards {
-            Some((nr, _)) => (0..nr as u32).map(Some).collect(),
-            None => vec![None],
-        };
-        let mut seen: BTreeSet<u64> = BTreeSet::new();
-        let t0 = Instant::now();
-        let mut k = 0usize;
-        while !want.is_subset(&seen) {
-            let mut probe = Statement::new(PROBE);
-            let lbp = SingleTargetLoadBalancingPolicy::new(NodeIdentifier::HostId(host), aims[k % aims.len()]);
-            probe.set_execution_profile_handle(Some(ExecutionProfile::builder().load_balancing_policy(lbp).build().into_handle()));
-            k += 1;
-            let from = cluster.log_len();
-            let ok = session.query_unpaged(probe, ()).await.is_ok();
-            let before = seen.len();
-            for e in cluster.log_since(from) {
-                if e.is_stmt(PROBE) && e.node == i {
-                    seen.insert(e.conn);
-                }
-            }
-            r.counters.add("pool_probes", 1);
-            if t0.elapsed() > DEADLINE {
-                machinery(&cluster, desc, &format!("probes aimed at node {i} reached connections {seen:?} only, the mock has {want:?} READY"));
-            }
-            if !ok || seen.len() == before {
-                tokio::time::sleep(Duration::from_micros(200)).await; // poll interval of a condition wait
-            }
-        }
-    }
+    confirm_pools(r, desc, layout, &cluster, &session, &pool).await;
     let conns_at_start: BTreeSet<u64> = cluster.open_conns(None).iter().map(|c| c.id).collect();
     // the driver's view of the metadata the mock served (guards against a harness that misdrives the session)
     {
@@ -447,14 +457,14 @@ async fn run_session(r: &Report, desc: &Desc, layout: &Arc<Layout>, cluster: &Mo
     }
 
     let replaying = only.is_some();
-    let mut run = Run { r, desc, layout: layout.clone(), cluster: cluster.clone(), session, pool_has, serial: 0, replaying };
+    let mut run = Run { r, desc, layout: layout.clone(), cluster: cluster.clone(), session, pool_has, serial: 0, replaying, restart: 0, restart_note: String::new() };
     let policies = match &session_pref {
         None => model::policies(layout),
         Some(dc) => model::session_policies(dc),
     };
     // session-level preference: one pass per request (the same code below the preference lookup was repeated above)
     let base_repeats = if session_pref.is_some() { 1 } else { desc.repeats.max(1) };
-    let generations: usize = if desc.tablets > 0 { 2 } else { 1 };
+    let generations: usize = layout.tablet_maps.len().max(1);
 
     for generation in 0..generations {
         if let Some(o) = only {
@@ -482,7 +492,11 @@ async fn run_session(r: &Report, desc: &Desc, layout: &Arc<Layout>, cluster: &Mo
             world.generation.store(generation, Ordering::SeqCst);
             world.always_send.store(true, Ordering::SeqCst);
             for (t, tab) in layout.tablet_maps[generation].iter().enumerate() {
-                let Some(ck) = keys.iter().find(|k| layout.tablet_of(generation, k.token) == Some(t)) else { machinery(&cluster, desc, &format!("no key for tablet {t}")) };
+                // the request that brings the payload: lowest key of the tablet; for the merge generation the key with the
+                // highest token (the payload then arrives for a token of the upper one of the two tablets it replaces)
+                let mut of_tablet = keys.iter().filter(|k| layout.tablet_of(generation, k.token) == Some(t));
+                let ck = if generation >= 2 { of_tablet.max_by_key(|k| k.token) } else { of_tablet.next() };
+                let Some(ck) = ck else { machinery(&cluster, desc, &format!("no key for tablet {t}")) };
                 let before = world.payloads_sent.load(Ordering::SeqCst);
                 run.serial += 1;
                 let serial = run.serial;
@@ -494,7 +508,22 @@ async fn run_session(r: &Report, desc: &Desc, layout: &Arc<Layout>, cluster: &Mo
                 let want: BTreeSet<(uuid::Uuid, u32)> = tab.replicas.iter().map(|(n, s)| (cluster.host_id(*n), *s as u32)).collect();
                 let s2 = &run.session;
                 let token = ck.token;
-                if let Err(e) = poll_until("client lists the delivered tablet", || client_tablet_view(s2, token) == want || TABLET_NOT_LEARNT.load(Ordering::SeqCst)).await {
+                // Merge generation: if the merged tablet has the very replicas of the upper tablet it replaces, the view at
+                // the upper token equals `want` before the payload is processed and proves nothing - then the view at a
+                // token of the lower tablet must have changed as well before the requests start.
+                let mut also: Option<i64> = None;
+                if generation >= 2 && t == 0 {
+                    let upper_old = &layout.tablet_maps[generation - 1][1].replicas;
+                    let mut a = upper_old.clone();
+                    let mut b = tab.replicas.clone();
+                    a.sort();
+                    b.sort();
+                    if a == b {
+                        also = keys.iter().filter(|k| layout.tablet_of(generation, k.token) == Some(0)).min_by_key(|k| k.token).map(|k| k.token);
+                        r.counters.add("merge_learning_waits_on_both_halves", 1);
+                    }
+                }
+                if let Err(e) = poll_until("client lists the delivered tablet", || (client_tablet_view(s2, token) == want && also.map(|x| client_tablet_view(s2, x) == want).unwrap_or(true)) || TABLET_NOT_LEARNT.load(Ordering::SeqCst)).await {
                     TABLET_NOT_LEARNT.store(true, Ordering::SeqCst);
                     r.violation(
                         "tablet:payload-not-learnt",
@@ -516,15 +545,15 @@ async fn run_session(r: &Report, desc: &Desc, layout: &Arc<Layout>, cluster: &Mo
         for policy in &policies {
             let handle = policy_handle(policy);
             for ks in &layout.keyspaces {
-                if generation > 0 && !ks.tablet_based && only.is_none() && policy != &Policy::Default {
-                    continue; // second tablet generation: vnode keyspaces are re-checked under the default policy only
+                if generation > 0 && !ks.tablet_based && only.is_none() && (policy != &Policy::Default || generation > 1) {
+                    continue; // later tablet generations: vnode keyspaces are re-checked once, under the default policy
                 }
                 for lwt in [false, true] {
                     let mut ps = prepared[&(ks.name.clone(), lwt)].clone();
                     ps.set_execution_profile_handle(Some(handle.clone()));
                     for ck in keys.iter() {
                         if let Some(o) = only {
-                            if o.ks != ks.name || o.lwt != lwt || &o.policy != policy || o.key != ck.key || o.generation != generation {
+                            if o.restart != 0 || o.ks != ks.name || o.lwt != lwt || &o.policy != policy || o.key != ck.key || o.generation != generation {
                                 continue;
                             }
                         }
@@ -545,6 +574,84 @@ async fn run_session(r: &Report, desc: &Desc, layout: &Arc<Layout>, cluster: &Mo
     let conns_at_end: BTreeSet<u64> = cluster.open_conns(None).iter().map(|c| c.id).collect();
     if conns_at_start != conns_at_end {
         machinery(&cluster, desc, "the set of open connections changed while the requests ran");
+    }
+
+    // ---- a node "restarts" with other sharding parameters: same shard count but another msb_ignore, then another shard
+    // count, then not sharded at all. All its pool connections are reset, the pool refills against the new SUPPORTED.
+    let victim = layout.nodes.iter().rposition(|n| n.shards.is_some());
+    if let (true, None, Some(v)) = (desc.restart, &session_pref, victim) {
+        let mut cur: Layout = (**layout).clone();
+        let (nr0, msb0) = cur.nodes[v].shards.unwrap();
+        let msb1 = if msb0 == 0 { 12 } else { 0 };
+        let nr2 = if nr0 >= 3 { nr0 - 1 } else { nr0 + 1 };
+        let steps: Vec<Option<(u16, u8)>> = vec![Some((nr0, msb1)), Some((nr2, msb1)), None];
+        let last_generation = generations - 1;
+        for (k, new_shards) in steps.into_iter().enumerate() {
+            let step = k + 1;
+            if let Some(o) = only {
+                if o.restart < step {
+                    break;
+                }
+            }
+            cluster.set_sharding(v, new_shards);
+            cur.nodes[v].shards = new_shards;
+            cur.desc.shards[v] = new_shards;
+            let victims: Vec<u64> = cluster.open_conns(Some(v)).iter().filter(|c| c.registered.is_empty()).map(|c| c.id).collect();
+            for id in &victims {
+                cluster.close_conn(*id, mockcluster::CloseKind::Rst).await;
+            }
+            let cur_ref = &cur;
+            let pool = cluster.wait_conns("pools full again after the restart", DEADLINE, |cs| pools_full(cur_ref, cs)).await.unwrap_or_else(|e| machinery(&cluster, desc, &e));
+            if pool.iter().any(|c| victims.contains(&c.id)) {
+                machinery(&cluster, desc, "a reset connection is still listed as open");
+            }
+            confirm_pools(r, desc, &cur, &cluster, &run.session, &pool).await;
+            r.counters.add("restarts", 1);
+            let conns_before: BTreeSet<u64> = cluster.open_conns(None).iter().map(|c| c.id).collect();
+            let (keys2, stats2) = model::find_cell_keys(&cur, desc.keys_per_cell, 1_000_000);
+            if stats2.cells_hit != stats2.cells_total {
+                r.counters.add("clusters_with_unhit_cells", 1);
+            }
+            r.counters.add("cells_total_after_restarts", stats2.cells_total as u64);
+            r.counters.add("cells_hit_after_restarts", stats2.cells_hit as u64);
+            run.layout = Arc::new(cur.clone());
+            run.pool_has = pool.iter().map(|c| (c.node, c.shard)).collect();
+            run.restart = step;
+            run.restart_note = format!(" [after restart {step}: node {v} now {}]", new_shards.map(|(n, m)| format!("{n}/{m}")).unwrap_or_else(|| "unsharded".into()));
+            let same_count = new_shards.map(|x| x.0) == Some(nr0);
+            for policy in [Policy::Default, Policy::PreferDc { dc: cur.nodes[v].dc.clone(), failover: true }] {
+                let handle = policy_handle(&policy);
+                for ks in &cur.keyspaces {
+                    if ks.tablet_based && !same_count {
+                        continue; // the tablet map names shards of the old shard count
+                    }
+                    for lwt in [false, true] {
+                        let mut ps = prepared[&(ks.name.clone(), lwt)].clone();
+                        ps.set_execution_profile_handle(Some(handle.clone()));
+                        for ck in keys2.iter() {
+                            if let Some(o) = only {
+                                if o.restart != step || o.ks != ks.name || o.lwt != lwt || o.policy != policy || o.key != ck.key {
+                                    continue;
+                                }
+                            }
+                            let repeats = if run.replaying { 16 } else { base_repeats };
+                            for _ in 0..repeats {
+                                r.counters.add("requests_after_a_restart", 1);
+                                if let Some(x) = run.request(&ps, ks, lwt, &policy, ck, last_generation).await {
+                                    outcomes.insert(x);
+                                }
+                            }
+                        }
+                    }
+                }
+            }
+            let conns_after: BTreeSet<u64> = cluster.open_conns(None).iter().map(|c| c.id).collect();
+            if conns_before != conns_after {
+                machinery(&cluster, desc, "the set of open connections changed while the requests after a restart ran");
+            }
+        }
+        // put the mock back for the sessions that follow
+        cluster.set_sharding(v, Some((nr0, msb0)));
     }
     // close this session's connections before the next session counts its own
     drop(run);
@@ -574,6 +681,7 @@ fn main() {
         let desc = Desc::from_json(&case["desc"]).unwrap_or_else(|| vcore::machinery_error("replay: bad desc"));
         let o = &case["only"];
         let only = Only {
+            restart: o["restart"].as_u64().unwrap_or(0) as usize,
             lwt: o["lwt"].as_bool().unwrap_or(false),
             ks: o["ks"].as_str().unwrap_or("s1").to_string(),
             policy: Policy::parse(o["policy"].as_str().unwrap_or("default")).unwrap_or(Policy::Default),
@@ -600,7 +708,7 @@ fn main() {
     vcore::par::for_each(jobs, 1, descs.into_iter(), |d| block_on_cluster(r_ref, &d, None));
 
     r.note("clusters_enumerated", json!(total));
-    r.set_rule("E-MOCK. Clusters: node counts 1..4 (thorough ..6) x DC splits {one DC, every two-DC split with the larger half first} x shard patterns {unsharded, 1, 2, 3 shards, two mixes giving every node another sharder incl. msb_ignore 0 (thorough: 8 shards and three more mixes)} x pool {PerShard(1), PerHost(1)} x tablets {off, on (all-sharded clusters)} x vnodes per node {1,2,3} (thorough ..4), tokens jittered around an equal division, owners shuffled; plus NAT clusters (3 shards, thorough also 8) where the server binds a shard-aware-port connection to another shard than the one asked for. Inside every cluster: a session without location preference and one session per DC preferred at session level; keyspaces Simple RF 1,2,3, NTS {dc1:1,dc2:1}, {dc1:2,dc2:1}, {dc2:2} (+ tablet keyspace), all with a table `t`, x statements {plain, LWT-marked} x policies {default, prefer each DC with / without failover, prefer dc1/r2 with / without failover | session-level preference with / without failover} x one key (thorough two) per cell x 2 repeats, cell = (segment of the token space: ring interval / wrap halves / tablet boundary refinement) x sharder configuration x owning shard; cell emptiness and size computed from the reference shard function, every cell of >= 2^50 tokens must be hit; keys found by walking 0,1,2,.. with the reference Murmur3. Per request: node and server-side shard of the connection of the first EXECUTE carrying the request's serial vs. the reference replica list (narrowed to the preferred DC when it holds a replica; all nodes are up), shard_of(token) of that node when the pool holds a connection bound to it, the tablet's (node, shard) for the tablet table after the payload was delivered and the client lists it (two map generations, the second replacing the first), request_coordinator() (host id, shard, address) vs. the connection that served the answer. distinct_nontrivial = requests whose permitted first targets are a strict subset of the nodes.");
+    r.set_rule("E-MOCK. Clusters: node counts 1..4 (thorough ..6) x DC splits {one DC, every two-DC split with the larger half first} x shard patterns {unsharded, 1, 2, 3 shards, two mixes giving every node another sharder incl. msb_ignore 0 (thorough: 8 shards and three more mixes)} x pool {PerShard(1), PerHost(1)} x tablets {off, on (all-sharded clusters)} x vnodes per node {1,2,3} (thorough ..4), tokens jittered around an equal division, owners shuffled; plus NAT clusters (3 shards, thorough also 8) where the server binds a shard-aware-port connection to another shard than the one asked for. In the clusters with 2 vnodes per node, after the normal phase, the last sharded node restarts three times with other sharding parameters (same shard count but another msb_ignore; another shard count; not sharded): its SUPPORTED changes, all its pool connections are reset, the pool refills, and the cell keys recomputed for the new parameters are re-run under two policies. Inside every cluster: a session without location preference and one session per DC preferred at session level; keyspaces Simple RF 1,2,3, NTS {dc1:1,dc2:1}, {dc1:2,dc2:1}, {dc2:2} (+ tablet keyspace), all with a table `t`, x statements {plain, LWT-marked} x policies {default, prefer each DC with / without failover, prefer dc1/r2 with / without failover | session-level preference with / without failover} x one key (thorough two) per cell x 2 repeats, cell = (segment of the token space: ring interval / wrap halves / tablet boundary refinement) x sharder configuration x owning shard; cell emptiness and size computed from the reference shard function, every cell of >= 2^50 tokens must be hit; keys found by walking 0,1,2,.. with the reference Murmur3. Per request: node and server-side shard of the connection of the first EXECUTE carrying the request's serial vs. the reference replica list (narrowed to the preferred DC when it holds a replica; all nodes are up), shard_of(token) of that node when the pool holds a connection bound to it, the tablet's (node, shard) for the tablet table after the payload was delivered and the client lists it (three map generations: initial, every tablet migrated, the first two tablets merged into one), request_coordinator() (host id, shard, address) vs. the connection that served the answer. distinct_nontrivial = requests whose permitted first targets are a strict subset of the nodes.");
     let full = r.counters.get("cells_hit") == r.counters.get("cells_total") && r.counters.get("clusters") == total as u64;
     r.set_exhaustive(full);
     r.assume("all nodes up and connected for the whole run (checked: the set of open connections is the same before and after); client-internal scheduling and the thread RNG that picks among replicas are not controlled: the oracle is membership in the reference set, valid for every pick");
